@@ -13,6 +13,10 @@ def word_size(field):
     raise TranslateError("field of unknown size: " + field)
 
 
+def src_with_strings():
+    return strip_comments(read(SRC))
+
+
 def extract():
     src = strip_comments(read(SRC))
     hdr = strip_comments(read(HDR))
@@ -54,6 +58,11 @@ def extract():
     body = function_body(src, r"SimpleStringCacheAllocator::free_memory\s*\([^)]*\)\s*\{")
     if re.sub(r"\s+", "", body) != "cache_.dealloc(memory,size);":
         raise TranslateError("SimpleStringCacheAllocator::free_memory changed shape")
+    body = function_body(src_with_strings(), r"SimpleStringCacheAllocator::name\s*\(\s*\)\s*const\s*\{")
+    m = re.fullmatch(r'\s*return\s*"([A-Za-z_0-9]+)"\s*;\s*', body)
+    if not m:
+        raise TranslateError("SimpleStringCacheAllocator::name is not `return \"...\";`")
+    adaptor_name = m.group(1)
     block = sum(word_size(f) for f in struct_fields(src, "SimpleStringMemoryBlock"))
     node = sum(word_size(f) for f in struct_fields(src, "SimpleStringInternalCacheNode"))
     text = HEADER % ("translate/extract_cache.py", SRC)
@@ -65,6 +74,7 @@ def extract():
     text += "def nodeStructBytes : Nat := %d\n" % node
     text += "/-- does ~GlobalSimpleStringCache call clearAllIncludingCurrentlyUsedMemory (true) or only clearCache (false) -/\n"
     text += "def globalDtorClearsAll : Bool := %s\n" % dtor_all
+    text += "def adaptorName : String := \"%s\"\n" % adaptor_name
     text += "end Gen.Cache\n"
     return text
 
